@@ -293,6 +293,7 @@ Proof.
   - destruct Hok.
   - pose proof (rinv_loadcode a _ (rinv_ensure false a s H)) as H1. destruct (s_loadcode a _). exact H1.
   - pose proof (rinv_ft_read a _ (rinv_ensure true a s H)) as H1. destruct (ft_read a _). exact H1.
+  - destruct Hok.
 Qed.
 
 (* ---------- preservation: undo ---------- *)
